@@ -363,3 +363,39 @@ Example C07_tag_sequence_example :
   Forall (item_ok lex_sk) tag_items /\ follow tag_items [].
 Proof. split; [exact tag_items_example|exact tag_items_ok]. Qed.
 Print Assumptions C07_tag_sequence_example.
+
+(* ------------------------------------------------------------------------------------------------------------
+   The default-mode lexing theorems with the explicit fuel bound of Props/C04.v in place of `regular`
+   (Inst/InstSerLexTotal.v over Inst/InstBulkTerm.v): fuel >= (T + 1)(2T + 10), T the length of the serialized text. *)
+From HV Require Inst.InstTermination Inst.InstSerLexTotal.
+
+Theorem C07_escaped_text_lexes_back_default_mode_total :
+  forall c1 sk last s fuel, ~ In 0%N s -> ~ In 13%N s ->
+  (InstTermination.html_fuel (length (escape_spec false s)) <= fuel)%nat -> (4 <= fuel)%nat ->
+  let rf := drive_chunked html_flavour false html_table html_simd hent c1 sk fuel [] [escape_spec false s]
+              (mkmach (init_cfg HData last false) [] [] 0%N) [] in
+  snd rf = [SSuspend; SSuspend] /\ st (mc (fst rf)) = HData /\
+  exists l k l' k', obs (mout (fst rf)) = (TEof, l', k') :: match s with [] => [] | _ => [(TChars s, l, k)] end.
+Proof. exact InstSerLexTotal.html_escaped_text_lexes_back_default_mode_total. Qed.
+Print Assumptions C07_escaped_text_lexes_back_default_mode_total.
+
+Theorem C07_escaped_attr_lexes_back_default_mode_total :
+  forall c1 sk last s fuel,
+  lookup_resp [97%N] (sk_resp sk) = None -> ~ In 0%N s -> ~ In 13%N s ->
+  (InstTermination.html_fuel (length (pre6 ++ escape_spec true s ++ [34; 62]%N)) <= fuel)%nat -> (4 <= fuel)%nat ->
+  let rf := drive_chunked html_flavour false html_table html_simd hent c1 sk fuel [] [pre6 ++ escape_spec true s ++ [34; 62]%N]
+              (mkmach (init_cfg HData last false) [] [] 0%N) [] in
+  snd rf = [SSuspend; SSuspend] /\ st (mc (fst rf)) = HData /\
+  exists l k l' k', obs (mout (fst rf)) = [(TEof, l', k'); (TTag TStartTag [97%N] false [([98%N], s)] false, l, k)].
+Proof. exact InstSerLexTotal.html_escaped_attr_lexes_back_default_mode_total. Qed.
+Print Assumptions C07_escaped_attr_lexes_back_default_mode_total.
+
+Theorem C07_serialized_sequence_lexes_back_default_mode_total_partial :
+  forall c1 sk last its fuel, Forall (item_ok sk) its -> follow its [] ->
+  (InstTermination.html_fuel (length (render_items its)) <= fuel)%nat -> (4 <= fuel)%nat ->
+  let rf := drive_chunked html_flavour false html_table html_simd hent c1 sk fuel [] [render_items its]
+              (mkmach (init_cfg HData last false) [] [] 0%N) [] in
+  snd rf = [SSuspend; SSuspend] /\ st (mc (fst rf)) = HData /\
+  exists l' k' o, obs (mout (fst rf)) = (TEof, l', k') :: o /\ deliv (items_tokens its) [] o.
+Proof. exact InstSerLexTotal.html_items_lex_back_default_mode_total. Qed.
+Print Assumptions C07_serialized_sequence_lexes_back_default_mode_total_partial.
